@@ -118,7 +118,9 @@ NextSeq == /\ cnt' = cnt
                       ELSE Feed(Head(x)) /\ todo' = Tail(x)
 \* WALK: bytes that keep the current phase alive, plus a few that do not
 WalkBytes == {0, 9, 10, 13, 32, 33, 47, 48, 49, 50, 58, 59, 65, 70, 72, 80, 84, 97, 102, 127, 128, 195, 255, 46}
-NextWalk == cnt < L /\ \E b \in WalkBytes : Feed(b) /\ cnt' = cnt + 1 /\ stage' = stage /\ todo' = todo
+\* mostly bytes that keep the parse alive (long well-formed heads), plus one that kills it
+WalkChoices(x) == {c \in WalkBytes : Step(x, c).st # "E"} \cup {0}
+NextWalk == cnt < L /\ \E b \in WalkChoices(s) : Feed(b) /\ cnt' = cnt + 1 /\ stage' = stage /\ todo' = todo
 
 Next == /\ ~IsDone(s)
         /\ CASE Family = "BYTE" -> NextByte
